@@ -993,11 +993,6 @@ func (s *CeremonySim) evidencePayload(c common.Address) []byte {
 		}
 	}
 	pl.EvMarked[c] = marked
-	if b.Evidence == 3 && r.Intn(3) == 0 {
-		// an evidence tx without any payload at all (no validation rule demands one)
-		s.Rep.Count("evidence_txs_with_zero_length_payload", 1)
-		return nil
-	}
 	buf := new(bytes.Buffer)
 	bm.WriteTo(buf)
 	return buf.Bytes()
